@@ -94,6 +94,10 @@ func (this *RGBLuminanceSource) Crop(left, top, width, height int) (LuminanceSou
 	if left < 0 || top < 0 || width < 0 || height < 0 {
 		return nil, errors.New("IllegalArgumentException: Crop rectangle must not have a negative origin or size")
 	}
+	if width > this.dataWidth || height > this.dataHeight || left > this.dataWidth-width || top > this.dataHeight-height {
+		// also keeps the sums below from wrapping around for arguments near the largest int
+		return nil, errors.New("IllegalArgumentException: Crop rectangle does not fit within image data")
+	}
 	if this.left+left+width > this.dataWidth || this.top+top+height > this.dataHeight {
 		return nil, errors.New("IllegalArgumentException: Crop rectangle does not fit within image data")
 	}
